@@ -20,6 +20,7 @@ mod c16;
 mod ls;
 mod c07;
 mod c09;
+mod lintonly;
 mod inputs;
 
 #[path = "/repo/harper-ls/src/git_commit_parser.rs"]
@@ -65,6 +66,7 @@ fn main() {
         "lsdemo" => ls::demo(&a),
         "c07" => c07::main(&a),
         "c09" => c09::main(&a),
+        "lintonly" => lintonly::main(&a),
         other => {
             eprintln!("unknown subcommand {other}");
             std::process::exit(2);
